@@ -40,6 +40,20 @@ def _mutate(name):
         exec('from __future__ import annotations\n' + new, ns)
         ct.BaseTemplate.digest = ns['digest']
         return
+    if name == 'data_conversion_any_bound_prefix':
+        def convert_data_attributes(ns_attrs, attrs, namespaces):
+            d = 0
+            for i, attr in list(enumerate(attrs)):
+                nm = attr['name']
+                if nm.startswith('data-') and '-' in nm[5:]:
+                    prefix, rest = nm[5:].split('-', 1)
+                    if namespaces.get(prefix) is None:
+                        continue
+                    ns_attrs[namespaces[prefix], rest] = attr['value']
+                    attrs.pop(i - d)
+                    d += 1
+        zp.convert_data_attributes = convert_data_attributes
+        return
     if name == 'empty_tag_shares_scope':
         from chameleon import parser as parser_module
         import inspect
@@ -435,4 +449,28 @@ def empty_tag_scope(u: int, w: int, sp: int) -> bool:
     except Exception:
         return (not False) if CFG.get('negate') else False
     ok = out == want and w != 1
+    return (not ok) if CFG.get('negate') else ok
+
+
+# ---- statement-free documents under the data-attribute option ------------------------------------------
+DATA_DOCS = ['<a data-xml-lang="en" data-x="1">t</a>', '<a xmlns:v="urn:v" data-v-7ba5="1" v:k="2">t</a>',
+             '<a data-x-y="2" data-foo="1" data-xmlns-q="u">t</a>', '<a xml:lang="en" data-xml-space="preserve">t</a>',
+             '<r xmlns:f="urn:f"><f:e data-f-k="1"/><e data-f="2" f:a="3"/></r>']
+
+
+def data_option_verbatim(i: int, j: int) -> bool:
+    """
+    pre: 0 <= i < 5 and 0 <= j < 5
+    post: _
+    """
+    # data-* attributes that do not spell a template statement are ordinary markup, option on or off
+    from chameleon import PageTemplate
+    from vlib.notrace import NoTracing
+    ok = True
+    for k in (i, j):
+        doc = pickx(DATA_DOCS, k)
+        with NoTracing():
+            on = PageTemplate(doc, enable_data_attributes=True).render()
+            off = PageTemplate(doc).render()
+        ok = ok and on == doc and off == doc
     return (not ok) if CFG.get('negate') else ok
